@@ -572,12 +572,39 @@ class Ctx:
             detail = dict(detail or {})
             detail["candidate_from_abstraction"] = True
             self.notes["last_model_is_candidate"] = False
+        env = self._complete_env(env, [z3.Not(goal)])
         self.failures.append(
             Failure(label, goal, env, len(self.path), detail)
         )
         if self.stop_on_failure:
             raise PathCut()
         return False
+
+    def _complete_env(self, env, extra):
+        """A counterexample comes from the sliced query; the constraints dropped by
+        the cone of influence (variable-disjoint from it, satisfiable on their own)
+        still pin inputs the replay needs -- e.g. the branch condition `beta == 0`
+        of a path whose outputs no longer mention beta.  Solve them separately and
+        merge their values into the counterexample."""
+        try:
+            kept = {f.get_id() for f in self.relevant(list(extra))}
+            dropped = [f for f in self.constraints() if f.get_id() not in kept]
+            if not dropped or not isinstance(env, dict):
+                return env
+            res, model = solve(dropped, self, self.timeout_ms)
+            if res != "sat":
+                return env
+            more = model_env(model, self)
+            for k, v in more.items():
+                if k == "__purified__":
+                    env.setdefault(k, {})
+                    for kk, vv in v.items():
+                        env[k].setdefault(kk, vv)
+                else:
+                    env.setdefault(k, v)
+        except (HarnessError, z3.Z3Exception):
+            pass
+        return env
 
     def real_point(self, model, extra):
         """Turn a model into a real point of the log-space problem: either
